@@ -512,3 +512,29 @@ pub proof fn lemma_traversal_along_history<T: Eq + PartialOrd + Send + Sync, A: 
         lemma_traversal_preserved_by_add_edge(prev, es[k - 1], cur, Ok(()));
     }
 }
+
+// [C10.steps.symmetric_on_undirected_graphs] on an undirected graph whose traversal rows satisfy wf_traversal, one search step can be
+// taken back: what connected_components needs to make its sets disjoint
+pub proof fn lemma_steps_symmetric<T: Eq + PartialOrd + Send + Sync, A: Clone>(g: Graph<T, A>)
+    requires
+        g.wf_nodes(), g.wf_traversal(), !g.specs.directed,
+    ensures
+        steps_symmetric(g),
+{
+    assert forall|a: T, x: T| #[trigger] steps_to(g, a, x) implies steps_to(g, x, a) by {
+        let pa = g.nodes_map@[a];
+        let px = g.nodes_map@[x];
+        assert(g.predecessors_vec@[pa as int]@.len() == 0);
+        let row = g.successors_vec@[pa as int]@;
+        assert(in_row(row, px));
+        let k = choose|k: int| 0 <= k < row.len() && (#[trigger] row[k]).node_index == px;
+        assert(g.succ_entry_ok(pa, g.successors_vec@[pa as int]@[k]));
+        let c = g.canon(pa, px);
+        assert(g.has_pair(c.0, c.1));
+        assert(c == (pa, px) || c == (px, pa));
+        assert(row_has(g.successors_vec@[px as int]@, pa));
+        let k2 = choose|k2: int| 0 <= k2 < g.successors_vec@[px as int]@.len() && #[trigger] g.successors_vec@[px as int]@[k2].node_index == pa;
+        assert(g.successors_vec@[px as int]@[k2].node_index == pa);
+        assert(in_row(g.successors_vec@[px as int]@, pa));
+    }
+}
